@@ -105,6 +105,26 @@ def mutants_of(src):
         yield "%s line %d: %s (%s)" % (fn, node.lineno, d, ast.unparse(node)[:60].replace("\n", " ")), out
 
 
+def _run(cmd, timeout, **kw):
+    """subprocess.run with the whole process group killed on timeout (a mutant may loop forever inside a worker pool whose
+    grandchildren would otherwise keep the pipes open)"""
+    import signal
+    p = subprocess.Popen(cmd, stdout=subprocess.PIPE, stderr=subprocess.STDOUT, text=True, start_new_session=True, **kw)
+    try:
+        out, _ = p.communicate(timeout=timeout)
+        return p.returncode, out
+    except subprocess.TimeoutExpired:
+        try:
+            os.killpg(p.pid, signal.SIGKILL)
+        except OSError:
+            pass
+        try:
+            p.communicate(timeout=10)
+        except Exception:
+            pass
+        return None, ""
+
+
 def evaluate(job):
     relfile, desc, newsrc = job
     scratch = tempfile.mkdtemp(prefix="mu_", dir="/tmp")
@@ -114,26 +134,23 @@ def evaluate(job):
         with open(os.path.join(scratch, relfile), "w") as f:
             f.write(newsrc)
         env = dict(os.environ, PYTHONPATH=scratch, MPLBACKEND="Agg")
-        try:
-            t = subprocess.run(["/venv/bin/python", "-m", "pytest", "-x", "-q", "-p", "no:cacheprovider", "--timeout=300", "test"], cwd=scratch,
-                               capture_output=True, text=True, env=env, timeout=900)
-        except subprocess.TimeoutExpired:
+        rc, _out = _run(["/venv/bin/python", "-m", "pytest", "-x", "-q", "-p", "no:cacheprovider", "--timeout=120", "test"], 600, cwd=scratch, env=env)
+        if rc is None:
             return relfile, desc, "killed-by-tests(timeout)", ""
-        if t.returncode != 0:
+        if rc != 0:
             return relfile, desc, "killed-by-tests", ""
         env2 = dict(os.environ, VERIF_REPO=scratch, PYTHONPATH=scratch, VERIF_OUT=os.path.join(scratch, "out"), VERIF_SEED="0")
         notes = []
         for pid in BY_FILE.get(os.path.basename(relfile), []):
-            try:
-                r = subprocess.run([os.path.join(ROOT, "check"), pid, "--tier", "quick"], cwd=ROOT, capture_output=True, text=True, env=env2, timeout=1800)
-            except subprocess.TimeoutExpired:
+            rc, out = _run([os.path.join(ROOT, "check"), pid, "--tier", "quick"], 1200, cwd=ROOT, env=env2)
+            if rc is None:
                 notes.append("%s:timeout" % pid)
                 continue
-            if r.returncode == 1 and "VIOLATION" in r.stdout:
-                what = next((l.strip()[:140] for l in r.stdout.splitlines() if l.startswith("  what")), "")
+            if rc == 1 and "VIOLATION" in out:
+                what = next((l.strip()[:140] for l in out.splitlines() if l.startswith("  what")), "")
                 return relfile, desc, "caught-by-%s" % pid, what
-            if r.returncode not in (0, 1):
-                notes.append("%s:rc=%d" % (pid, r.returncode))
+            if rc not in (0, 1):
+                notes.append("%s:rc=%d" % (pid, rc))
         return relfile, desc, "SURVIVED", " ".join(notes)
     finally:
         shutil.rmtree(scratch, ignore_errors=True)
